@@ -306,3 +306,70 @@ func VerifC16UserDict() {
 	vf.Reach("accepted")
 	vf.Reach("end")
 }
+
+func verifAttrNames(as []Attribute) []string {
+	out := make([]string, len(as))
+	for i, a := range as {
+		out[i] = a.Name
+	}
+	return out
+}
+
+func verifSameNames(a, b []string) bool {
+	if len(a) != len(b) {
+		return false
+	}
+	for i := range a {
+		if a[i] != b[i] {
+			return false
+		}
+	}
+	return true
+}
+
+// verifRefNames is the parent-first walk over the raw records (no crd lookup code).
+func verifRefNames(symbol string, depth int) []string {
+	if depth > len(verifChords) {
+		return nil
+	}
+	var rec *Chord
+	for i := range verifChords {
+		if verifChords[i].Name == symbol || verifChords[i].Meta.Display == symbol {
+			rec = &verifChords[i]
+		}
+	}
+	if rec == nil {
+		return nil
+	}
+	var out []string
+	if rec.Extends != "" {
+		out = append(out, verifRefNames(rec.Extends, depth+1)...)
+	}
+	return append(out, rec.Attributes...)
+}
+
+// VerifC16LookupHistory: a dictionary answers every lookup the same way whatever was looked
+// up before, and an answer handed out earlier is not changed by later lookups (one map, a
+// history of lookups — the way one `crd write` run uses it).
+func VerifC16LookupHistory() {
+	m := verifBuiltinMap()
+	n := vf.Param("C16.history", 2)
+	var results [][]Attribute
+	var symbols []string
+	for i := 0; i < n; i++ {
+		c := verifChords[vf.NondetIntRange("chord", 0, len(verifChords)-1)]
+		sym := c.Meta.Display
+		if vf.NondetIntRange("byName", 0, 1) == 1 {
+			sym = c.Name
+		}
+		got, ok := m.GetChordAttributes(sym)
+		vf.Assert("lookup-succeeds", ok)
+		vf.Assert("lookup-independent-of-history", verifSameNames(verifAttrNames(got), verifRefNames(sym, 0)))
+		results = append(results, got)
+		symbols = append(symbols, sym)
+		for j := range results {
+			vf.Assert("earlier-answers-unchanged-by-later-lookups", verifSameNames(verifAttrNames(results[j]), verifRefNames(symbols[j], 0)))
+		}
+	}
+	vf.Reach("end")
+}
